@@ -100,6 +100,25 @@ func genPrograms(size, depth int, atoms []string, constructs [][]string) []strin
 	return out
 }
 
+// eexecShaped: programs whose tail is an (hex) eexec section that needs few or
+// no operations of its own - nothing at all, a comment, a procedure literal - so
+// that for some budget N the eexec operator is exactly the N-th operation and
+// nothing countable follows: such a program ends as it does without a budget.
+var eexecShaped = func() []string {
+	var out []string
+	for _, pre := range []string{"", "1 2 add pop ", "/x 7 def x pop "} {
+		for _, plain := range []string{"", "\n", "% nothing to do\n", "{ 1 2 add }\n", "{ 1 2 add } mark currentfile closefile\n", "mark currentfile closefile\n", "/y { 3 } def\n", "1 2 add\n"} {
+			cipher := eexecref.New().Encrypt(nil, append([]byte{0, 0, 0, 0}, plain...))
+			prog := pre + "currentfile eexec\n" + string(eexecref.Armour(cipher, eexecref.HexLower)) + "\n"
+			if strings.Contains(plain, "closefile") {
+				prog += "00000000 cleartomark % after the section\n"
+			}
+			out = append(out, prog)
+		}
+	}
+	return out
+}()
+
 var handShaped = []string{
 	"/r {r} def r",                                       // tail self-call: legitimate infinite loop
 	"/r {r 1} def r",                                     // non-tail self-call through a name
@@ -914,7 +933,7 @@ func main() {
 			_ = size
 			smallAtoms := []string{"1", "pop", "exit", "stop", "f", "count"}
 			smallCons := [][]string{constructs[0], constructs[1], constructs[3], constructs[4], constructs[6], constructs[7], constructs[9], constructs[13]}
-			progs := append([]string{}, handShaped...)
+			progs := append(append([]string{}, handShaped...), eexecShaped...)
 			seen := map[string]bool{}
 			for _, p := range append(genPrograms(size-1, 2, atoms, constructs), genPrograms(size, 2, smallAtoms, smallCons)...) {
 				if !seen[p] {
@@ -935,7 +954,7 @@ func main() {
 			return []mc.Family{
 				{
 					Name: "budget-cut-points", Items: len(progs), Body: budgetBody(progs), Budget: budget,
-					Rule:     fmt.Sprintf("%d programs (every shape with <= %d statements over %d atoms and %d constructs, and with <= %d statements over a reduced alphabet of %d atoms and %d constructs, nested to depth 2, plus %d hand-shaped recursion/handler programs) x EVERY budget N in 1..ops(P)+2 (non-terminating programs: N in 1..64 and powers of two below %d); non-trivial = every case (distinct program x budget)", len(progs), size-1, len(atoms), len(constructs), size, len(smallAtoms), len(smallCons), len(handShaped), harnessCap),
+					Rule:     fmt.Sprintf("%d programs (every shape with <= %d statements over %d atoms and %d constructs, and with <= %d statements over a reduced alphabet of %d atoms and %d constructs, nested to depth 2, plus %d hand-shaped recursion/handler programs and %d programs ending in an eexec section that needs no or few operations of its own) x EVERY budget N in 1..ops(P)+2 (non-terminating programs: N in 1..64 and powers of two below %d); non-trivial = every case (distinct program x budget)", len(progs), size-1, len(atoms), len(constructs), size, len(smallAtoms), len(smallCons), len(handShaped), len(eexecShaped), harnessCap),
 					Describe: func(i int) string { return progs[i] },
 					CrashKey: func(i int) string { return "C11:crash:budget:{" + kindOf(progs[i]) + "}" },
 					// one execution takes microseconds to milliseconds (the largest budget is
